@@ -19,7 +19,7 @@ func init() {
 	register(&mc.Check{
 		ID:    "C18",
 		Level: "model_checking",
-		Rule: "applications with language switches before the first HALT, while handling input at the entry node, in a child node and immediately before the end x switch answers {nor,no,eng,swa,xx,norsk with LANG; nor without LANG} chosen per call x Config.Language {'',nor} x translations present for every subset of {entry template, child template, menu label} x all input histories up to depth d x {long-lived, persisted-mem, persisted-fs}; " +
+		Rule: "applications with language switches before the first HALT, while handling input at the entry node, in a child node and immediately before the end x switch answers {nor,no,eng,swa,fre (639-2/B),xx,norsk with LANG; nor without LANG} chosen per call x Config.Language {'',nor} x translations present for every subset of {entry template, child template, menu label + static symbol} x all input histories up to depth d x {long-lived, persisted-mem, persisted-fs}; " +
 			"reference VM in lockstep (current language = config, then last valid code; rendered text = translation where present, default otherwise; external functions receive the language) plus: every template/menu/function lookup of a request carries the language current before or after that request, and render-time lookups carry the one after it; states = distinct (app, position, language); non-trivial = executions with >=2 effective switches or an invalid code after a valid one",
 		Assumptions: []string{"an empty language code with LANG set is outside the alphabet (the code treats it as reset; the statement does not cover it)", "two resources: the harness's recording in-memory resource (per-lookup language check) and the library's resource.DbResource over db/mem (rendered text only); resource/gettext.go (PoResource) is not exercised"},
 		Run:         c18Run,
@@ -46,7 +46,7 @@ type c18Answer struct {
 	flag bool
 }
 
-var c18Answers = []c18Answer{{"nor", true}, {"no", true}, {"eng", true}, {"swa", true}, {"xx", true}, {"norsk", true}, {"nor", false}}
+var c18Answers = []c18Answer{{"nor", true}, {"no", true}, {"eng", true}, {"swa", true}, {"xx", true}, {"norsk", true}, {"nor", false}, {"fre", true}}
 
 func c18App(sp c18Spec) *app.App {
 	a := app.New("lang")
@@ -54,11 +54,15 @@ func c18App(sp c18Spec) *app.App {
 	if sp.Early {
 		root = append(root, codec.Ins{Op: codec.LOAD, Sym: "sw0", N: 0})
 	}
-	root = append(root, codec.Ins{Op: codec.LOAD, Sym: "greet", N: 12}, codec.Ins{Op: codec.MAP, Sym: "greet"}, codec.Ins{Op: codec.MOUT, Sym: "lbl", Sel: "1"}, codec.Ins{Op: codec.MOUT, Sym: "chg", Sel: "2"},
+	root = append(root, codec.Ins{Op: codec.LOAD, Sym: "stat", N: 24}, codec.Ins{Op: codec.LOAD, Sym: "greet", N: 12}, codec.Ins{Op: codec.MAP, Sym: "greet"}, codec.Ins{Op: codec.MOUT, Sym: "lbl", Sel: "1"}, codec.Ins{Op: codec.MOUT, Sym: "chg", Sel: "2"},
 		codec.Ins{Op: codec.MOUT, Sym: "end", Sel: "3"}, codec.Ins{Op: codec.HALT}, codec.Ins{Op: codec.INCMP, Sym: "child", Sel: "1"}, codec.Ins{Op: codec.INCMP, Sym: "sw1", Sel: "2"}, codec.Ins{Op: codec.INCMP, Sym: "fin", Sel: "3"})
 	a.Node("root", "root {{.greet}}", root...)
 	a.Node("sw1", "sw1", codec.Ins{Op: codec.LOAD, Sym: "sw1f", N: 0}, codec.Ins{Op: codec.MOVE, Sym: "_"})
-	a.Node("child", "child {{.cg}}", codec.Ins{Op: codec.LOAD, Sym: "cg", N: 12}, codec.Ins{Op: codec.MAP, Sym: "cg"}, codec.Ins{Op: codec.MOUT, Sym: "back", Sel: "0"}, codec.Ins{Op: codec.MOUT, Sym: "lbl", Sel: "2"},
+	a.Static = map[string]string{"stat": "static text"}
+	if sp.Trans&4 != 0 {
+		a.StaticLang = map[string]map[string]string{"nor": {"stat": "statisk tekst"}, "swa": {"stat": "maandishi"}}
+	}
+	a.Node("child", "child {{.cg}} {{.stat}}", codec.Ins{Op: codec.LOAD, Sym: "cg", N: 12}, codec.Ins{Op: codec.MAP, Sym: "cg"}, codec.Ins{Op: codec.RELOAD, Sym: "stat"}, codec.Ins{Op: codec.MOUT, Sym: "back", Sel: "0"}, codec.Ins{Op: codec.MOUT, Sym: "lbl", Sel: "2"},
 		codec.Ins{Op: codec.HALT}, codec.Ins{Op: codec.INCMP, Sym: "_", Sel: "0"}, codec.Ins{Op: codec.INCMP, Sym: "sw2", Sel: "2"})
 	a.Node("sw2", "sw2", codec.Ins{Op: codec.LOAD, Sym: "sw2f", N: 0}, codec.Ins{Op: codec.MOVE, Sym: "_"})
 	a.Node("fin", "bye", codec.Ins{Op: codec.LOAD, Sym: "swf", N: 0}, codec.Ins{Op: codec.RELOAD, Sym: "greet"}, codec.Ins{Op: codec.HALT})
